@@ -566,6 +566,38 @@ func (P) Exec(c *harness.Case) *harness.Outcome {
 			if closed == nil {
 				continue // (the first closed period also holds what the prelude left: not judged)
 			}
+			// Reports can be late: this opening may have been performed long before it was reported - it may be
+			// the opening of the period BEFORE that close. It certainly follows the close when its call was invoked
+			// after the close was reported, or when it is the second of exactly two openings around the only close
+			// of the run and the other one was reported before the passage to half-open (an exact instant) that
+			// the close ended.
+			certain := e.call != nil && e.call.inv > closed.seq
+			if !certain {
+				nClose, nOpen, firstBefore := 0, 0, false
+				var half *levent
+				for _, h := range evs {
+					if h.from == model.HalfOpen && h.to == model.Closed {
+						nClose++
+					}
+					if h.from == model.Closed && h.to == model.Open {
+						nOpen++
+					}
+					if h.from == model.Open && h.to == model.HalfOpen && h.seq < closed.seq {
+						half = h
+					}
+				}
+				if half != nil {
+					for _, h := range evs {
+						if h != e && h.from == model.Closed && h.to == model.Open && h.seq < half.seq {
+							firstBefore = true
+						}
+					}
+				}
+				certain = nClose == 1 && nOpen == 2 && firstBefore && startState == model.Closed
+			}
+			if !certain {
+				continue
+			}
 			o.Probe("opening_after_a_close_judged")
 			// (the clearing lies somewhere inside the closing call, the report of the close comes last)
 			cut := closed.seq
@@ -612,6 +644,9 @@ func (P) Exec(c *harness.Case) *harness.Outcome {
 			}
 			if unknown {
 				continue
+			}
+			if e.call == nil || e.call.inv < began.seq {
+				continue // (a late report: the close may belong to an earlier passage)
 			}
 			o.Probe("closing_of_a_passage_with_probe_number_judged")
 			n := uint64(0)
